@@ -194,16 +194,8 @@ class Reader(BaseValidator):
         assert (validate_until is None) or (validate_until >= 0)
 
         super().__init__(cid_or_path)
-        # TODO: Consolidate obtaining source path with other code segments that do similar things.
-        if isinstance(source_data_stream_or_path, str):
-            source_path = source_data_stream_or_path
-        else:
-            try:
-                source_path = source_data_stream_or_path.name
-            except AttributeError:
-                source_path = "<io>"
-        self._source_path = source_path
-        self._location = errors.Location(source_path, has_cell=True)
+        self._location = errors.Location(source_data_stream_or_path, has_cell=True)
+        self._source_path = self._location.file_path
         self._source_data_stream_or_path = source_data_stream_or_path
         self._on_error = on_error
         self._validate_until = validate_until
